@@ -80,6 +80,33 @@ func H_C19_selfcomp_undelegate() {
 func H_C19_selfcomp_redelegate() {
 	selfcomp("C19.selfcomp.redelegate", OpRedelegate, shapeActor("shape"), Opts{Rewards: true, BigPool: true, StrictRewards: true}, false)
 }
+// a second redelegation of the same block: the queue slot (completion time) already holds another
+// delegator's entry, so the slot is rewritten with two entries - their order must not depend on a map
+func H_C19_selfcomp_redelegate_slot() {
+	id := "C19.selfcomp.redelegate_slot"
+	st := Build([]Pos{{0, 0, 0}, {1, 0, 0}}, Opts{Rewards: true, BigPool: true, StrictRewards: true, NVals: 3})
+	e := st.E
+	U, _ := e.Stk.UnbondingTime(e.Ctx)
+	InstallRedelegation(e, 1, 2, 1, 0, nd.IntRange("r0", "1", Pow30), st.T0.Add(U))
+	siblings := 1
+	if !nd.Symbolic() {
+		siblings = 40
+	}
+	var others []*State
+	for k := 0; k < siblings; k++ {
+		c := *st
+		c.E = e.Branch()
+		others = append(others, &c)
+	}
+	ok1 := RunOp(st, OpRedelegate, id, false)
+	nd.Reach(id)
+	for _, o := range others {
+		ok2 := RunOp(o, OpRedelegate, id, false)
+		nd.Assert(id+".result", ok1 == ok2)
+		sameState(id, e, o.E)
+	}
+}
+
 func H_C19_selfcomp_claim() {
 	selfcomp("C19.selfcomp.claim", OpClaim, shapeActor("shape"), Opts{Rewards: true, BigPool: true, StrictRewards: true}, false)
 }
